@@ -642,3 +642,358 @@ Definition jblock (d k i : nat) : json :=
 Fixpoint jblocks (d k i : nat) : list json :=
   match i with O => [] | S i' => jblock d k i :: jblocks d k i' end.
 Definition tower_json (proto : Z) (d k : nat) : json := jroot proto 1000 (jblocks d k k).
+
+(* ================= the height of a built tree is bounded by the nesting depth of its schema ================= *)
+Definition hmax (ns : list node) : nat := fold_right (fun x acc => Nat.max (height x) acc) O ns.
+
+Lemma height_node h subs : height (Node h subs) = S (hmax subs).
+Proof. reflexivity. Qed.
+Lemma hmax_cons x ns : hmax (x :: ns) = Nat.max (height x) (hmax ns).
+Proof. reflexivity. Qed.
+Lemma hmax_app a b : hmax (a ++ b) = Nat.max (hmax a) (hmax b).
+Proof. induction a as [|x a IH]; [reflexivity|]. cbn [app]. rewrite !hmax_cons, IH. lia. Qed.
+Lemma hmax_or_empty name l ns : hmax (or_empty name l ns) = hmax ns.
+Proof. destruct ns; reflexivity. Qed.
+
+Lemma node_init_obj sl k tag extra b m j aux h m0 :
+  node_init sl k tag extra b m j aux = Ok (h, m0) -> 1 <= jdepth j.
+Proof.
+  unfold node_init. destruct (jindex j (K "__class__")) as [cc|] eqn:C; cbn [bind]; [|intros X; discriminate X].
+  intros _. apply jindex_depth in C. lia.
+Qed.
+
+Section Height.
+  Variable E : env.
+  Variable rec : list pstr -> slot -> memo -> json -> res (node * memo).
+  Hypothesis Hrec : forall extra sl m j t m', rec extra sl m j = Ok (t, m') -> height t <= jdepth j.
+
+  Lemma sub_list_height extra name b : forall js m ns m',
+    sub_list rec extra name m js = Ok (ns, m') -> (forall v, In v js -> jdepth v <= b) -> hmax ns <= b.
+  Proof.
+    induction js as [|j js IH]; intros m ns m' H Hb; cbn [sub_list] in H.
+    - injection H as <- _. apply Nat.le_0_l.
+    - destruct (rec extra (SElem name) m j) as [[n m1]|] eqn:R; cbn [bind] in H; [|discriminate H].
+      destruct (sub_list rec extra name m1 js) as [[ns' m2]|] eqn:S; cbn [bind] in H; [|discriminate H].
+      injection H as <- _. rewrite hmax_cons. apply Hrec in R. pose proof (Hb j (or_introl eq_refl)).
+      assert (hmax ns' <= b) by (eapply IH; [exact S | intros; apply Hb; right; assumption]). lia.
+  Qed.
+
+  Lemma sub_dict_height extra name b : forall kvs m ns m',
+    sub_dict rec extra name m kvs = Ok (ns, m') -> (forall k v, In (k, v) kvs -> jdepth v <= b) -> hmax ns <= b.
+  Proof.
+    induction kvs as [|[k j] kvs IH]; intros m ns m' H Hb; cbn [sub_dict] in H.
+    - injection H as <- _. apply Nat.le_0_l.
+    - destruct (rec extra (SKey name k) m j) as [[n m1]|] eqn:R; cbn [bind] in H; [|discriminate H].
+      destruct (sub_dict rec extra name m1 kvs) as [[ns' m2]|] eqn:S; cbn [bind] in H; [|discriminate H].
+      injection H as <- _. rewrite hmax_cons. apply Hrec in R. pose proof (Hb k j (or_introl eq_refl)).
+      assert (hmax ns' <= b) by (eapply IH; [exact S | intros; eapply Hb; right; eassumption]). lia.
+  Qed.
+
+  Lemma sub_list_iter_height extra name c items m ns m' :
+    jiter c = Ok items -> sub_list rec extra name m items = Ok (ns, m') -> hmax ns <= Nat.pred (jdepth c).
+  Proof.
+    intros I S. eapply sub_list_height; [exact S|]. intros v Hv. destruct (jiter_depth _ _ I _ Hv); lia.
+  Qed.
+
+  Lemma sub_dict_items_height extra name c items m ns m' :
+    jitems c = Ok items -> sub_dict rec extra name m items = Ok (ns, m') -> hmax ns <= Nat.pred (jdepth c).
+  Proof.
+    intros I S. eapply sub_dict_height; [exact S|]. intros k v Hv. pose proof (jitems_depth _ _ I _ _ Hv). lia.
+  Qed.
+
+  Lemma content_child_height extra j key slotname m n m' :
+    content_child rec extra j key slotname m = Ok (n, m') -> height n + 2 <= jdepth j.
+  Proof.
+    unfold content_child. intros H.
+    destruct (jindex j (K "content")) as [c|] eqn:C; cbn [bind] in H; [|discriminate H].
+    destruct (jindex c key) as [v|] eqn:V; cbn [bind] in H; [|discriminate H].
+    apply Hrec in H. apply jindex_depth in C. apply jindex_depth in V. lia.
+  Qed.
+
+  Ltac brk H :=
+    repeat (cbn [bind] in H;
+      match type of H with
+      | bind ?r _ = Ok _ => let X := fresh "X" in destruct r eqn:X; cbn [bind] in H; [|discriminate H]
+      | (let (_, _) := ?p in _) = Ok _ => destruct p
+      | (match ?x with _ => _ end) = Ok _ => let X := fresh "X" in destruct x eqn:X; try discriminate H
+      | (if ?b then _ else _) = Ok _ => let X := fresh "X" in destruct b eqn:X; try discriminate H
+      end).
+
+  Ltac facts :=
+    repeat match goal with
+    | I : jiter ?c = Ok ?items, X : sub_list rec _ _ _ ?items = Ok _ |- _ => apply (sub_list_iter_height _ _ _ _ _ _ _ I) in X
+    | I : jitems ?c = Ok ?items, X : sub_dict rec _ _ _ ?items = Ok _ |- _ => apply (sub_dict_items_height _ _ _ _ _ _ _ I) in X
+    | X : content_child rec _ _ _ _ _ = Ok _ |- _ => apply content_child_height in X
+    | X : rec _ _ _ _ = Ok _ |- _ => apply Hrec in X
+    | X : node_init _ _ _ _ _ _ _ _ = Ok _ |- _ => apply node_init_obj in X
+    | X : jindex _ _ = Ok _ |- _ => apply jindex_depth in X
+    | X : jget _ _ = Ok _ |- _ => apply jget_depth in X
+    end.
+
+  Lemma build_height sl extra tag k m j t m' :
+    build E rec sl extra tag k m j = Ok (t, m') -> height t <= jdepth j.
+  Proof.
+    intros H. destruct k; unfold build in H; cbv beta iota zeta in H; brk H;
+      try (injection H as <- <-); facts;
+      rewrite height_node; rewrite ?hmax_app, ?hmax_cons, ?hmax_or_empty;
+      cbn [hmax fold_right height] in *; lia.
+  Qed.
+End Height.
+
+Theorem get_tree_height E proto : forall fuel extra sl m j t m',
+  get_tree fuel E proto extra sl m j = Ok (t, m') -> height t <= jdepth j.
+Proof.
+  induction fuel as [|fuel IH]; intros extra sl m j t m' H; [discriminate H|].
+  cbn [get_tree] in H.
+  destruct (jget j (K "__id__")) as [sid|]; cbn [bind] in H; [|discriminate H].
+  destruct (jhash sid) as [hk|]; cbn [bind] in H; [|discriminate H].
+  destruct (memo_mem hk m); [injection H as <- _; apply Nat.le_0_l|].
+  destruct (jindex j (K "__loader__")) as [loader|]; cbn [bind] in H; [|discriminate H].
+  destruct (dispatch (e_reg E) (e_cur E) loader proto) as [[tag|]|]; cbn [bind] in H; try discriminate H.
+  - destruct (kind_of_class tag) as [k|]; [|discriminate H].
+    eapply build_height; [|exact H]. intros; eapply IH; eauto.
+  - destruct (jindex j (K "__module__")); cbn [bind] in H; [|discriminate H].
+    destruct (jindex j (K "__class__")); cbn [bind] in H; discriminate H.
+Qed.
+
+Corollary root_tree_height E schema t m : root_tree E schema = Ok (t, m) -> height t <= jdepth schema.
+Proof.
+  unfold root_tree. destruct (jindex schema (K "protocol")); cbn [bind]; [|intros X; discriminate X].
+  apply get_tree_height.
+Qed.
+
+(* the size conditions read off the schema's nesting depth and the number of memoised ids *)
+Lemma fits_mono a h d c : h <= d -> a * S d + d + 2 <= c -> a * S h + h + 2 <= c.
+Proof. intros Hh Hc. assert (a * S h <= a * S d) by (apply Nat.mul_le_mono_l; lia). lia. Qed.
+
+Theorem audit_fits_of_depth E schema t m :
+  root_tree E schema = Ok (t, m) ->
+  length (ids t) * S (jdepth schema) + jdepth schema + 2 <= unsafe_fuel -> audit_fits t.
+Proof. intros RT Hc. unfold audit_fits. eapply fits_mono; [eapply root_tree_height; exact RT | exact Hc]. Qed.
+
+Theorem walk_fits_of_depth E schema t m :
+  root_tree E schema = Ok (t, m) ->
+  2 * length (ids t) * S (jdepth schema) + jdepth schema + 2 <= walk_fuel -> walk_fits t.
+Proof. intros RT Hc. unfold walk_fits. eapply fits_mono; [eapply root_tree_height; exact RT | exact Hc]. Qed.
+
+(* ================= every memoised id of a built tree is the hash of an "__id__" value of the schema ================= *)
+Definition own_jid (kv : list (pstr * json)) : list hkey :=
+  match dget (K "__id__") kv with
+  | Some sid => if jtruthy sid then match jhash sid with Ok h => [h] | Raise _ => [] end else []
+  | None => []
+  end.
+(* hashes of the truthy, hashable "__id__" values anywhere in a JSON value (with repetitions) *)
+Fixpoint jids (j : json) : list hkey :=
+  match j with
+  | JObj kv => own_jid kv ++ flat_map (fun p => jids (snd p)) kv
+  | JArr l => flat_map jids l
+  | _ => []
+  end.
+
+Lemma dget_In' {A} k (d : list (pstr * A)) v : dget k d = Some v -> exists k', In (k', v) d.
+Proof.
+  induction d as [|[k0 v0] d IH]; cbn [dget]; [discriminate|].
+  destruct (pstr_eqb k k0).
+  - intros H; injection H as ->. exists k0. left. reflexivity.
+  - intros H. destruct (IH H) as [k' Hk]. exists k'. right. exact Hk.
+Qed.
+
+Lemma jids_member kv k v : In (k, v) kv -> incl (jids v) (jids (JObj kv)).
+Proof.
+  intros Hin i Hi. cbn [jids]. apply in_or_app. right. apply in_flat_map. exists (k, v). split; [exact Hin | exact Hi].
+Qed.
+Lemma jindex_ids j k v : jindex j k = Ok v -> incl (jids v) (jids j).
+Proof.
+  destruct j; cbn [jindex]; try discriminate. destruct (dget k kv) as [v'|] eqn:D; [|discriminate].
+  intros X; injection X as ->. destruct (dget_In' _ _ _ D) as [k' Hk]. eapply jids_member; exact Hk.
+Qed.
+Lemma jget_ids j k v : jget j k = Ok v -> incl (jids v) (jids j).
+Proof.
+  destruct j; cbn [jget]; try discriminate. destruct (dget k kv) as [v'|] eqn:D.
+  - intros X; injection X as ->. destruct (dget_In' _ _ _ D) as [k' Hk]. eapply jids_member; exact Hk.
+  - intros X; injection X as <-. apply incl_nil_l.
+Qed.
+Lemma jitems_ids j kv : jitems j = Ok kv -> forall k v, In (k, v) kv -> incl (jids v) (jids j).
+Proof. destruct j; cbn [jitems]; try discriminate. intros X; injection X as ->. intros k v. apply jids_member. Qed.
+Lemma jiter_ids j l : jiter j = Ok l -> forall v, In v l -> incl (jids v) (jids j).
+Proof.
+  destruct j; cbn [jiter]; try discriminate; intros X; injection X as <-; intros v Hin.
+  - apply in_map_iff in Hin as [c [<- _]]. apply incl_nil_l.
+  - intros i Hi. cbn [jids]. apply in_flat_map. exists v. auto.
+  - apply in_map_iff in Hin as [p [<- _]]. apply incl_nil_l.
+Qed.
+
+Lemma node_init_ids sl k tag extra b m j aux h m0 :
+  node_init sl k tag extra b m j aux = Ok (h, m0) -> incl (own_ids h) (jids j).
+Proof.
+  unfold node_init. destruct (jindex j (K "__class__")) as [cc|] eqn:C; cbn [bind]; [|intros X; discriminate X].
+  destruct (jindex j (K "__module__")) as [cm|]; cbn [bind]; [|intros X; discriminate X].
+  destruct j as [| | | | | |kv]; try discriminate C. cbn [jget].
+  assert (G : forall sid, (match dget (K "__id__") kv with Some v => Ok v | None => Ok JNull end) = Ok sid ->
+                          jtruthy sid = true -> forall hk, jhash sid = Ok hk -> In hk (own_jid kv)).
+  { intros sid G Tr hk Hk. unfold own_jid. destruct (dget (K "__id__") kv) as [v|].
+    - injection G as ->. rewrite Tr, Hk. left. reflexivity.
+    - injection G as <-. discriminate Tr. }
+  destruct (match dget (K "__id__") kv with Some v => Ok v | None => Ok JNull end) as [sid|] eqn:S; cbn [bind]; [|intros X; discriminate X].
+  destruct (jtruthy sid) eqn:Tr; cbn [andb].
+  - destruct b.
+    + destruct (jhash sid) as [hk|] eqn:Hk; cbn [bind]; [|intros X; discriminate X].
+      intros X; injection X as <- _. unfold own_ids. cbn [h_id]. intros i [<-|[]]. cbn [jids]. apply in_or_app. left. eapply G; eauto.
+    + intros X; injection X as <- _. apply incl_nil_l.
+  - intros X; injection X as <- _. apply incl_nil_l.
+Qed.
+
+Lemma flat_map_ids_or_empty name l ns : flat_map ids (or_empty name l ns) = flat_map ids ns.
+Proof. destruct ns; reflexivity. Qed.
+
+Section IdsOfSchema.
+  Variable E : env.
+  Variable rec : list pstr -> slot -> memo -> json -> res (node * memo).
+  Hypothesis Hrec : forall extra sl m j t m', rec extra sl m j = Ok (t, m') -> incl (ids t) (jids j).
+
+  Lemma sub_list_jids extra name J : forall js m ns m',
+    sub_list rec extra name m js = Ok (ns, m') -> (forall v, In v js -> incl (jids v) J) -> incl (flat_map ids ns) J.
+  Proof.
+    induction js as [|j js IH]; intros m ns m' H Hb; cbn [sub_list] in H.
+    - injection H as <- _. apply incl_nil_l.
+    - destruct (rec extra (SElem name) m j) as [[n m1]|] eqn:R; cbn [bind] in H; [|discriminate H].
+      destruct (sub_list rec extra name m1 js) as [[ns' m2]|] eqn:S; cbn [bind] in H; [|discriminate H].
+      injection H as <- _. cbn [flat_map]. apply incl_app.
+      + eapply incl_tran; [eapply Hrec; exact R | apply Hb; left; reflexivity].
+      + eapply IH; [exact S | intros; apply Hb; right; assumption].
+  Qed.
+
+  Lemma sub_dict_jids extra name J : forall kvs m ns m',
+    sub_dict rec extra name m kvs = Ok (ns, m') -> (forall k v, In (k, v) kvs -> incl (jids v) J) -> incl (flat_map ids ns) J.
+  Proof.
+    induction kvs as [|[k j] kvs IH]; intros m ns m' H Hb; cbn [sub_dict] in H.
+    - injection H as <- _. apply incl_nil_l.
+    - destruct (rec extra (SKey name k) m j) as [[n m1]|] eqn:R; cbn [bind] in H; [|discriminate H].
+      destruct (sub_dict rec extra name m1 kvs) as [[ns' m2]|] eqn:S; cbn [bind] in H; [|discriminate H].
+      injection H as <- _. cbn [flat_map]. apply incl_app.
+      + eapply incl_tran; [eapply Hrec; exact R | eapply Hb; left; reflexivity].
+      + eapply IH; [exact S | intros; eapply Hb; right; eassumption].
+  Qed.
+
+  Lemma sub_list_iter_jids extra name c items m ns m' :
+    jiter c = Ok items -> sub_list rec extra name m items = Ok (ns, m') -> incl (flat_map ids ns) (jids c).
+  Proof. intros I S. eapply sub_list_jids; [exact S|]. apply (jiter_ids _ _ I). Qed.
+
+  Lemma sub_dict_items_jids extra name c items m ns m' :
+    jitems c = Ok items -> sub_dict rec extra name m items = Ok (ns, m') -> incl (flat_map ids ns) (jids c).
+  Proof. intros I S. eapply sub_dict_jids; [exact S|]. apply (jitems_ids _ _ I). Qed.
+
+  Lemma content_child_jids extra j key slotname m n m' :
+    content_child rec extra j key slotname m = Ok (n, m') -> incl (ids n) (jids j).
+  Proof.
+    unfold content_child. intros H.
+    destruct (jindex j (K "content")) as [c|] eqn:C; cbn [bind] in H; [|discriminate H].
+    destruct (jindex c key) as [v|] eqn:V; cbn [bind] in H; [|discriminate H].
+    apply Hrec in H. apply jindex_ids in C. apply jindex_ids in V.
+    eapply incl_tran; [exact H|]. eapply incl_tran; [exact V | exact C].
+  Qed.
+
+  Ltac brk H :=
+    repeat (cbn [bind] in H;
+      match type of H with
+      | bind ?r _ = Ok _ => let X := fresh "X" in destruct r eqn:X; cbn [bind] in H; [|discriminate H]
+      | (let (_, _) := ?p in _) = Ok _ => destruct p
+      | (match ?x with _ => _ end) = Ok _ => let X := fresh "X" in destruct x eqn:X; try discriminate H
+      | (if ?b then _ else _) = Ok _ => let X := fresh "X" in destruct b eqn:X; try discriminate H
+      end).
+
+  Ltac facts :=
+    repeat match goal with
+    | I : jiter ?c = Ok ?items, X : sub_list rec _ _ _ ?items = Ok _ |- _ => apply (sub_list_iter_jids _ _ _ _ _ _ _ I) in X
+    | I : jitems ?c = Ok ?items, X : sub_dict rec _ _ _ ?items = Ok _ |- _ => apply (sub_dict_items_jids _ _ _ _ _ _ _ I) in X
+    | X : content_child rec _ _ _ _ _ = Ok _ |- _ => apply content_child_jids in X
+    | X : rec _ _ _ _ = Ok _ |- _ => apply Hrec in X
+    | X : node_init _ _ _ _ _ _ _ _ = Ok _ |- _ => apply node_init_ids in X
+    | X : jindex _ _ = Ok _ |- _ => apply jindex_ids in X
+    | X : jget _ _ = Ok _ |- _ => apply jget_ids in X
+    end.
+
+  Ltac chain := first [ eassumption | exact (incl_nil_l _) | eapply incl_tran; [eassumption | chain] ].
+
+  Lemma build_jids sl extra tag k m j t m' :
+    build E rec sl extra tag k m j = Ok (t, m') -> incl (ids t) (jids j).
+  Proof.
+    intros H. destruct k; unfold build in H; cbv beta iota zeta in H; brk H;
+      try (injection H as <- <-); facts;
+      rewrite ?ids_set_aux; cbn [ids flat_map]; rewrite ?flat_map_app, ?flat_map_ids_or_empty; cbn [ids flat_map];
+      repeat apply incl_app; chain.
+  Qed.
+End IdsOfSchema.
+
+Theorem get_tree_jids E proto : forall fuel extra sl m j t m',
+  get_tree fuel E proto extra sl m j = Ok (t, m') -> incl (ids t) (jids j).
+Proof.
+  induction fuel as [|fuel IH]; intros extra sl m j t m' H; [discriminate H|].
+  cbn [get_tree] in H.
+  destruct (jget j (K "__id__")) as [sid|]; cbn [bind] in H; [|discriminate H].
+  destruct (jhash sid) as [hk|]; cbn [bind] in H; [|discriminate H].
+  destruct (memo_mem hk m); [injection H as <- _; apply incl_nil_l|].
+  destruct (jindex j (K "__loader__")) as [loader|]; cbn [bind] in H; [|discriminate H].
+  destruct (dispatch (e_reg E) (e_cur E) loader proto) as [[tag|]|]; cbn [bind] in H; try discriminate H.
+  - destruct (kind_of_class tag) as [k|]; [|discriminate H].
+    eapply build_jids; [|exact H]. intros; eapply IH; eauto.
+  - destruct (jindex j (K "__module__")); cbn [bind] in H; [|discriminate H].
+    destruct (jindex j (K "__class__")); cbn [bind] in H; discriminate H.
+Qed.
+
+(* ids are pairwise distinct (TreeIds), so there are at most as many as "__id__" values in the schema *)
+Corollary root_tree_ids_count E schema t m : root_tree E schema = Ok (t, m) -> length (ids t) <= length (jids schema).
+Proof.
+  intros RT. apply NoDup_incl_length; [eapply root_tree_ids_unique; exact RT|].
+  revert RT. unfold root_tree. destruct (jindex schema (K "protocol")); cbn [bind]; [|intros X; discriminate X].
+  apply get_tree_jids.
+Qed.
+
+(* ================= size conditions stated on the schema alone ================= *)
+Definition schema_audit_fits (schema : json) : Prop :=
+  length (jids schema) * S (jdepth schema) + jdepth schema + 2 <= unsafe_fuel.
+Definition schema_walk_fits (schema : json) : Prop :=
+  2 * length (jids schema) * S (jdepth schema) + jdepth schema + 2 <= walk_fuel.
+
+Lemma fits_mono2 a a' h d c : a <= a' -> h <= d -> a' * S d + d + 2 <= c -> a * S h + h + 2 <= c.
+Proof.
+  intros Ha Hh Hc. assert (a * S h <= a' * S d) by (apply Nat.mul_le_mono; lia). lia.
+Qed.
+
+Theorem schema_audit_fits_tree E schema t m :
+  root_tree E schema = Ok (t, m) -> schema_audit_fits schema -> audit_fits t.
+Proof.
+  intros RT Hc. unfold audit_fits. eapply fits_mono2; [eapply root_tree_ids_count; exact RT | eapply root_tree_height; exact RT | exact Hc].
+Qed.
+
+Theorem schema_walk_fits_tree E schema t m :
+  root_tree E schema = Ok (t, m) -> schema_walk_fits schema -> walk_fits t.
+Proof.
+  intros RT Hc. unfold walk_fits. eapply fits_mono2; [|eapply root_tree_height; exact RT | exact Hc].
+  pose proof (root_tree_ids_count E schema t m RT). lia.
+Qed.
+
+(* the model's verdict on ANY schema satisfying the two arithmetic conditions is a genuine outcome *)
+Theorem get_untrusted_types_schema E schema :
+  jdepth schema < default_fuel -> schema_audit_fits schema -> nofuel (get_untrusted_types E schema).
+Proof. intros Hd Hs. apply get_untrusted_types_genuine; [exact Hd|]. intros t m RT. eapply schema_audit_fits_tree; eauto. Qed.
+
+Theorem load_audit_schema E schema ta :
+  jdepth schema < default_fuel -> schema_audit_fits schema -> nofuel (load_audit E schema ta).
+Proof. intros Hd Hs. apply load_audit_genuine; [exact Hd|]. intros t m RT. eapply schema_audit_fits_tree; eauto. Qed.
+
+Theorem visualize_schema E skipped schema T sh :
+  jdepth schema < default_fuel -> schema_audit_fits schema -> schema_walk_fits schema ->
+  nofuel (visualize E skipped schema T sh).
+Proof.
+  intros Hd Hs Hw. apply visualize_genuine; [exact Hd|]. intros t m RT.
+  split; [eapply schema_audit_fits_tree | eapply schema_walk_fits_tree]; eauto.
+Qed.
+
+Theorem construct_trace_schema E schema t m :
+  root_tree E schema = Ok (t, m) ->
+  length (jids schema) * S (jdepth schema) + jdepth schema + 2 <= 3000 -> nofuel (construct_trace t).
+Proof.
+  intros RT Hc. apply construct_trace_nofuel. unfold construct_fits.
+  eapply fits_mono2; [eapply root_tree_ids_count; exact RT | eapply root_tree_height; exact RT | exact Hc].
+Qed.
